@@ -14,7 +14,7 @@ Record conf := { no_trace : bool; nplugins : nat }.
 (* which steps raise during a shutdown *)
 Record faults := { f_flush : bool; f_poll : bool; f_plugin : nat -> bool }.
 
-Inductive op := Start | Shutdown (f : faults) | HostSetsHooks (s t : nat).
+Inductive op := Start | StartFails | Shutdown (f : faults) | HostSetsHooks (s t : nat).
 
 Definition do_start (c : conf) (l : life) : life :=
   if started l then l else
@@ -23,6 +23,21 @@ Definition do_start (c : conf) (l : life) : life :=
           hooks_installed := false; inert := false; polling := true; attempted := attempted l |}
   else {| sys_hook := AGENT; thr_hook := AGENT; started := true; saved_sys := sys_hook l; saved_thr := thr_hook l;
           hooks_installed := true; inert := false; polling := true; attempted := attempted l |}.
+
+(* a start during which the channel or the poll raises, AFTER the handler installed its hooks.  cleanup = true (the code): the
+   handler is shut down again before the error is re-raised - the hooks are put back, the handler is inert, nothing is started;
+   cleanup = false (before the repair): the hooks stay installed and the agent is not marked started, so no shutdown will ever
+   take them back *)
+Definition do_failed_start (cleanup : bool) (c : conf) (l : life) : life :=
+  if started l then l else
+  let l1 := do_start c l in
+  if cleanup
+  then {| sys_hook := if hooks_installed l1 then saved_sys l1 else sys_hook l1;
+          thr_hook := if hooks_installed l1 then saved_thr l1 else thr_hook l1;
+          started := false; saved_sys := saved_sys l1; saved_thr := saved_thr l1; hooks_installed := false;
+          inert := true; polling := false; attempted := attempted l |}
+  else {| sys_hook := sys_hook l1; thr_hook := thr_hook l1; started := false; saved_sys := saved_sys l1; saved_thr := saved_thr l1;
+          hooks_installed := hooks_installed l1; inert := false; polling := false; attempted := attempted l |}.
 
 (* guarded = true: every step is attempted whatever the earlier ones did (the code);
    guarded = false: the first raising step aborts the rest (before the repair) *)
@@ -54,6 +69,7 @@ Definition do_shutdown (guarded : bool) (c : conf) (f : faults) (l : life) : lif
 Definition step (guarded : bool) (c : conf) (l : life) (o : op) : life :=
   match o with
   | Start => do_start c l
+  | StartFails => do_failed_start true c l
   | Shutdown f => do_shutdown guarded c f l
   | HostSetsHooks s t =>
       {| sys_hook := s; thr_hook := t; started := started l; saved_sys := saved_sys l; saved_thr := saved_thr l;
@@ -74,13 +90,14 @@ Definition stepname_eqb (a b : stepname) : bool :=
   | SPlugin i, SPlugin j => Nat.eqb i j
   | _, _ => false
   end.
-Record cop := { co_kind : nat (* 0 start, 1 shutdown, 2 host sets hooks *); co_flush : bool; co_poll : bool;
+Record cop := { co_kind : nat (* 0 start, 1 shutdown, 2 host sets hooks, 3 a start that fails *); co_flush : bool; co_poll : bool;
                 co_plugins : list bool; co_s : nat; co_t : nat }.
 Definition to_op (o : cop) : op :=
   match co_kind o with
   | O => Start
   | S O => Shutdown {| f_flush := co_flush o; f_poll := co_poll o; f_plugin := fun i => nth i (co_plugins o) false |}
-  | _ => HostSetsHooks (co_s o) (co_t o)
+  | S (S O) => HostSetsHooks (co_s o) (co_t o)
+  | _ => StartFails
   end.
 Record obs := { ob_sys : nat; ob_thr : nat; ob_started : bool; ob_inert : bool; ob_attempted : list stepname }.
 Record life_case := { lc_conf : conf; lc_s0 : nat; lc_t0 : nat; lc_ops : list cop; lc_obs : list obs }.
